@@ -25,7 +25,11 @@ def parse_read_obs(lines):
     cur = None
     needs = []
     panic = None
+    allocated = None
     for l in lines:
+        if l.startswith("allocated "):
+            allocated = int(l.split(" ")[1])
+            continue
         if l.startswith("newreader"):
             cur = {"newreader": l, "head": None, "msgs": [], "mds": [], "end": None, "info": [], "other": [], "slots": None, "alias": None, "panic": None}
             ops.append(cur)
@@ -47,7 +51,7 @@ def parse_read_obs(lines):
             cur["end"] = f[1]
         elif k in ("messages", "info", "getatt", "getmd"):
             cur["head"] = l
-        elif k in ("footer", "nofooter", "stats", "nostats", "ischema", "ichannel", "ci", "ai", "mx"):
+        elif k in ("footer", "nofooter", "stats", "nostats", "ischema", "ichannel", "ci", "ai", "mx", "channelcounts"):
             cur["info"].append(l)
         elif k == "slots":
             cur["slots"] = f[1]
@@ -57,18 +61,26 @@ def parse_read_obs(lines):
             cur["panic"] = l
         else:
             cur["other"].append(l)
-    return {"ops": ops, "needs": needs, "panic": panic}
+    return {"ops": ops, "needs": needs, "panic": panic, "allocated": allocated}
 
 
-def run_read(cases, wd, tag="read", timeout=900):
+def run_read(cases, wd, tag="read", timeout=900, isolated=False, go_env=None):
     import chk_lex
     impl = os.path.join(cm.BUILD, "impl")
     model_exe = os.path.join(cm.BUILD, "model")
     for c in cases:
         if "base" in c and "g" in c["base"] and "_dec" not in c:
             chk_lex.seed_tables(c, c["base"])
-    go_raw, crashed = cm.run_sharded(impl, "read", [(c["id"], read_lines(c)) for c in cases], wd, tag + "go", timeout=timeout)
+    if isolated:
+        go_raw, culprits = cm.run_isolated(impl, "read", [(c["id"], read_lines(c)) for c in cases], wd, tag + "go", timeout=60,
+                                           env=go_env, mem_bytes=8 << 30)
+        crashed = []
+    else:
+        go_raw, crashed = cm.run_sharded(impl, "read", [(c["id"], read_lines(c)) for c in cases], wd, tag + "go", timeout=timeout, extra_env=go_env)
+        culprits = {}
     go = {k: parse_read_obs(v) for k, v in go_raw.items()}
+    for k, why in culprits.items():
+        go[k] = {"ops": [], "needs": [], "panic": "process-death: " + why}
     dec_table, dall_table = {}, {}
     pending = list(cases)
     model = {}
